@@ -232,3 +232,31 @@ Proof.
     cbv zeta in H. change (option_map Some (@None Z)) with (@None (option Z)) in H. rewrite H. vm_compute. reflexivity.
 Qed.
 Print Assumptions C01_svt_instance.
+
+(* ---- Proofs.CalverTagE2E ---- *)
+From Coq Require Import List Bool NArith ZArith Arith.
+From BV Require Import Lib.PyStr Lib.Decimal Lib.Calendar Model.V2 Model.Pep440 Model.Cli Model.Lexid Proofs.DottedFacts Proofs.CalverTagE2E.
+Import ListNotations.
+Theorem C01_cvt_test_cmd : forall (today date : Z) (fl : flags) (ft : option (option ST.ptag)) (y m : N) (bid b' : list N) (t : option PE.ltag), (1000 <= y <= 9999)%N -> (1 <= m <= 12)%N -> all_digits bid = true -> bid <> [] -> (0 <= date <= MAX_ORD)%Z -> tag_flags fl ft -> bump_bid bid = Some b' -> let new := cvt_next y m b' (next_tag ft t) date in test_cmd_v2 today (cvt y m bid t) P fl (Some (Some date)) None = Exit0 new (to_pep440 new) /\ ver_lt (cvt y m bid t) new = true.
+Proof. exact cvt_test_cmd. Qed.
+Print Assumptions C01_cvt_test_cmd.
+
+Theorem C01_cvt_test_cmd_today : forall (today : Z) (fl : flags) (ft : option (option ST.ptag)) (y m : N) (bid b' : list N) (t : option PE.ltag), (1000 <= y <= 9999)%N -> (1 <= m <= 12)%N -> all_digits bid = true -> bid <> [] -> (0 <= today <= MAX_ORD)%Z -> tag_flags fl ft -> bump_bid bid = Some b' -> let new := cvt_next y m b' (next_tag ft t) today in test_cmd_v2 today (cvt y m bid t) P fl None None = Exit0 new (to_pep440 new).
+Proof. exact cvt_test_cmd_today. Qed.
+Print Assumptions C01_cvt_test_cmd_today.
+
+Theorem C01_cvt_test_cmd_overflow : forall (today date : Z) (fl : flags) (ft : option (option ST.ptag)) (y m : N) (bid : list N) (t : option PE.ltag), (1000 <= y <= 9999)%N -> (1 <= m <= 12)%N -> all_digits bid = true -> bid <> [] -> tag_flags fl ft -> bump_bid bid = None -> test_cmd_v2 today (cvt y m bid t) P fl (Some (Some date)) None = ExitErr.
+Proof. exact cvt_test_cmd_overflow. Qed.
+Print Assumptions C01_cvt_test_cmd_overflow.
+
+Theorem C01_cvt_result_greater : forall (date : Z) (y m : N) (bid b' : list N) (t t' : option PE.ltag), (1 <= m <= 12)%N -> all_digits bid = true -> bid <> [] -> bump_bid bid = Some b' -> ver_lt (cvt y m bid t) (cvt_next y m b' t' date) = true.
+Proof. exact cvt_result_greater. Qed.
+Print Assumptions C01_cvt_result_greater.
+
+Theorem C01_cvt_tag_downgrade_greater : forall (y m : N) (bid b' : list N), (1 <= m <= 12)%N -> all_digits bid = true -> bid <> [] -> bump_bid bid = Some b' -> ver_lt (cvt y m bid (Some PE.Lrc)) (cvt y m b' (Some PE.Lalpha)) = true /\ ver_lt (cvt y m bid None) (cvt y m b' (Some PE.Ldev)) = true /\ ver_lt (cvt y m bid (Some PE.Lpost)) (cvt y m b' (Some PE.Ldev)) = true /\ ver_lt (cvt y m bid (Some PE.Lbeta)) (cvt y m b' (Some PE.Lbeta)) = true.
+Proof. exact cvt_tag_downgrade_greater. Qed.
+Print Assumptions C01_cvt_tag_downgrade_greater.
+
+Theorem C01_calver_tag_e2e : forall (today date : Z) (fl : flags) (ft : option (option ST.ptag)) (y m : N) (bid b' : list N) (t : option PE.ltag), (1000 <= y <= 9999)%N -> (1 <= m <= 12)%N -> all_digits bid = true -> bid <> [] -> (0 <= date <= MAX_ORD)%Z -> tag_flags fl ft -> bump_bid bid = Some b' -> let t' := next_tag ft t in let new := cvt_next y m b' t' date in parse_version_info today (cvt y m bid t) P = POk (cvt_vinfo (Z.of_N y) (Z.of_N m) bid t) /\ format_version (cvt_vinfo (Z.of_N y) (Z.of_N m) bid t) P = Some (cvt y m bid t) /\ incr today (cvt y m bid t) P fl date = INew new /\ test_cmd_v2 today (cvt y m bid t) P fl (Some (Some date)) None = Exit0 new (to_pep440 new) /\ ver_lt (cvt y m bid t) new = true /\ (undec bid < undec b')%N /\ all_digits b' = true /\ (exists y' m' : N, new = cvt y' m' b' t' /\ (1000 <= y' <= 9999)%N /\ (1 <= m' <= 12)%N /\ (y * 100 + m <= y' * 100 + m')%N /\ (y' = y /\ m' = m \/ y' = Z.to_N (year_y (cal_of date)) /\ m' = Z.to_N (month (cal_of date))) /\ to_pep440 new = pep_text y' m' b' t').
+Proof. exact calver_tag_e2e. Qed.
+Print Assumptions C01_calver_tag_e2e.
